@@ -381,4 +381,7 @@ func probeFacts(sb *strings.Builder) {
 	}
 	fmt.Fprintf(sb, "def closeWriteProbe : Option (List (String × List Bool × Nat)) := some [\n  %s]\n", strings.Join(l, ",\n  "))
 	envProbeFacts(sb)
+	framingProbeFacts(sb)
+	exportedMethodsFacts(sb)
+	setterFacts(sb)
 }
